@@ -112,8 +112,8 @@ Fixpoint mods_max (l : list module) : N :=
   | m :: t => match t with [] => mend m | _ => mods_max t end
   end.
 
-(* find_module_for_address, first half: Ok(i) -> modules[i]; Err(0) -> None;
-   Err(i) -> modules[i-1] unless its end <= address *)
+(* find_module_for_address, first half: Ok(i) -> modules[i] unless its end <= address (an empty range);
+   Err(0) -> None; Err(i) -> modules[i-1] unless its end <= address *)
 Definition check_end (prev : option module) (a : N) : option module :=
   match prev with
   | Some p => if mend p <=? a then None else Some p
@@ -123,7 +123,7 @@ Definition check_end (prev : option module) (a : N) : option module :=
 Fixpoint find_cand (l : list module) (a : N) (prev : option module) : option module :=
   match l with
   | [] => check_end prev a
-  | x :: t => if mstart x =? a then Some x
+  | x :: t => if mstart x =? a then check_end (Some x) a        (* Ok(i): the end test too (repair S24: empty ranges) *)
               else if a <? mstart x then check_end prev a
               else find_cand t a (Some x)
   end.
